@@ -284,4 +284,10 @@ func init() {
 		"		cfg.SlowConsumerTimeout,\n		ins,\n	)", "		cfg.SlowConsumerTimeout,\n		ins,\n		16,\n	)", "C20.R8.rendezvous")
 	mut("C02", "a failed file ends the GC pass before the index is persisted", "cesium/internal/domain/delete.go",
 		"		if err = db.garbageCollectFile(fileKey, s.Size()); err != nil {\n			gcErr = err\n			break\n		}", "		if err = db.garbageCollectFile(fileKey, s.Size()); err != nil {\n			return span.Error(err)\n		}", "C02.R5.gc")
+	mut("C05", "under exclusive concurrency a gate with enough authority is authorized without being the holder", "cesium/internal/control/gate.go",
+		"		if g.region.curr == g {\n			return g.region.resource, nil\n		}", "		if g.region.curr == g || g.authority >= g.region.curr.authority {\n			return g.region.resource, nil\n		}", "C05.R6.decide")
+	mut("C05", "absolute authority is authorized regardless of the holder", "cesium/internal/control/gate.go",
+		"	} else if g.authority >= g.region.curr.authority {", "	} else if g.authority >= g.region.curr.authority || g.authority == control.AuthorityAbsolute {", "C05.R6.decide")
+	mut("C05", "OpenGate opens a fresh region although one overlapped when the transfer is empty", "cesium/internal/control/controller.go",
+		"	if exists {\n		return g, t, err\n	}", "	if exists && t.Occurred() {\n		return g, t, err\n	}", "C05.R6.decide")
 }
